@@ -197,6 +197,56 @@ def current_world():
     return _GLOBAL_WORLD[0]
 
 
+def _world_here():
+    """World owning the calling thread: the running VLoop's, else the process-global one."""
+    try:
+        lp = asyncio.events._get_running_loop()
+    except Exception:   # noqa
+        lp = None
+    w = getattr(lp, '_world', None)
+    return w if w is not None else _GLOBAL_WORLD[0]
+
+
+def virtualise_clocks(mod):
+    """A tree under test may start reading clocks directly (`from time import monotonic`, `import time`).
+    Rebind such module globals to the virtual clock of the current world, so that executions stay
+    deterministic and 'later' keeps meaning virtual time. No-op for trees that only use loop.time()."""
+    import time as _t
+    import types
+
+    def clock(scale=1.0, real=_t.monotonic):
+        def now():
+            w = _world_here()
+            return real() if w is None else (w.now * scale if scale == 1.0 else int(w.now * scale))
+        return now
+
+    def vsleep(d):
+        w = _world_here()
+        if w is None:
+            return _t.sleep(d)
+        if hasattr(w, 'sleep'):
+            return w.sleep(d)          # engine B: a scheduling point
+        w.now += max(d, 0.0)           # engine A: blocks the (only) thread, time passes
+
+    clocks = {'monotonic': clock(), 'time': clock(), 'perf_counter': clock(),
+              'monotonic_ns': clock(1e9), 'time_ns': clock(1e9), 'perf_counter_ns': clock(1e9)}
+    done = []
+    for k, v in list(vars(mod).items()):
+        if v is _t:
+            ns = types.SimpleNamespace(**{n: getattr(_t, n) for n in dir(_t) if not n.startswith('__')})
+            for n, f in clocks.items():
+                setattr(ns, n, f)
+            ns.sleep = vsleep
+            setattr(mod, k, ns)
+            done.append(k)
+        else:
+            for n, f in clocks.items():
+                if v is getattr(_t, n):
+                    setattr(mod, k, f)
+                    done.append(k)
+    return done
+
+
 def install_policy():
     asyncio.set_event_loop_policy(VPolicy(current_world))
 
